@@ -227,6 +227,32 @@ func closeBracket(tm model.Time) model.Time {
 	return tm
 }
 
+// swapNilEmpty returns v with every null bulk replaced by an empty bulk (nilToEmpty) or the reverse.
+func swapNilEmpty(v respc.Value, nilToEmpty bool) (respc.Value, bool) {
+	switch v.Kind {
+	case '$':
+		if nilToEmpty && v.Nil {
+			return respc.BulkS(""), true
+		}
+		if !nilToEmpty && !v.Nil && len(v.Str) == 0 {
+			return respc.NilBulk(), true
+		}
+	case '*':
+		if v.Nil {
+			return v, false
+		}
+		changed := false
+		out := respc.Value{Kind: '*', Arr: make([]respc.Value, len(v.Arr))}
+		for i, e := range v.Arr {
+			c := false
+			out.Arr[i], c = swapNilEmpty(e, nilToEmpty)
+			changed = changed || c
+		}
+		return out, changed
+	}
+	return v, false
+}
+
 // Run executes prog and returns the divergences (at most one per step; after
 // a divergence the model is re-synchronised from the implementation so that
 // the rest of the program still counts) and the coverage.
@@ -286,7 +312,21 @@ func Run(prog []gen.Cmd, o Opts) ([]Div, Stats) {
 					Sig: "framing-wire|" + name + "|got=" + res.V.KindName()})
 			}
 		}
+		var payloadOnly bool
+		if o.Strict {
+			// would the reply be the prescribed one if null bulks read as empty strings (or the reverse)? Then the
+			// command did the right thing and a stored payload is mis-framed: an empty string decodes as "no value"
+			if alt, changed := swapNilEmpty(res.V, true); changed && !db.Clone().Step(cmd, res.V, tm).OK && db.Clone().Step(cmd, alt, tm).OK {
+				payloadOnly = true
+			} else if alt, changed := swapNilEmpty(res.V, false); changed && !db.Clone().Step(cmd, res.V, tm).OK && db.Clone().Step(cmd, alt, tm).OK {
+				payloadOnly = true
+			}
+		}
 		out := db.Step(cmd, res.V, tm)
+		if payloadOnly {
+			add(Div{Kind: "framing", Step: i, Cmd: Quote(cmd), Want: out.Want, Got: res.V.String(), Detail: "the reply is the prescribed one except that an empty string and a null bulk are exchanged: the client does not decode the stored bytes",
+				Sig: "framing-nil-vs-empty|" + name + "|got=" + res.V.KindName()})
+		}
 		st.Tuples[name+"|"+shape+"|"+kt+"|"+res.V.KindName()]++
 		if out.Unspecified {
 			st.Unspecified++
